@@ -187,6 +187,15 @@ class Server(object):
 
     def request(self, req):
         method, path, body, headers = req['method'], req['path'], req.get('body'), req.get('headers') or {}
+        if method == 'FS':
+            # not a request: the harness changes a file in the served directory
+            dst = os.path.join(self.root, 'work', path)
+            if body is None:
+                with open(dst, 'w') as f:
+                    f.write('this is no longer a notebook\n')
+            else:
+                shutil.copyfile(os.path.join(self.root, 'work', body), dst)
+            return {'status': 'fs-event', 'body': None}
         try:
             c = http.client.HTTPConnection('127.0.0.1', self.port, timeout=20)
             data = body.encode('utf8') if isinstance(body, str) else body
@@ -249,6 +258,11 @@ def requests_for(mode, tier):
     add('diff a->b', 'POST', '/api/diff', J({'base': 'a.ipynb', 'remote': 'b.ipynb'}), kind='diff', files=('a.ipynb', 'b.ipynb'))
     add('diff b->d', 'POST', '/api/diff', J({'base': 'b.ipynb', 'remote': 'd.ipynb'}), kind='diff', files=('b.ipynb', 'd.ipynb'))
     add('diff sj->a', 'POST', '/api/diff', J({'base': 'sj.ipynb', 'remote': 'a.ipynb'}), kind='diff', files=('sj.ipynb', 'a.ipynb'))
+    add('diff a->out', 'POST', '/api/diff', J({'base': 'a.ipynb', 'remote': 'out.ipynb'}), kind='diff', files=('a.ipynb', 'out.ipynb'))
+    add('merge a,out,c', 'POST', '/api/merge', J({'base': 'a.ipynb', 'local': 'out.ipynb', 'remote': 'c.ipynb'}), kind='merge', files=('a.ipynb', 'out.ipynb', 'c.ipynb'))
+    # environment events: another program rewrites a notebook between two requests ("answered as if first, on the current tree")
+    R.append(dict(name='FS: b.ipynb rewritten by another program', method='FS', path='b.ipynb', body='d.ipynb', kind='fs', headers=None))
+    R.append(dict(name='FS: b.ipynb becomes a non-notebook', method='FS', path='b.ipynb', body=None, kind='fs', headers=None))
     add('merge a,b,c', 'POST', '/api/merge', J({'base': 'a.ipynb', 'local': 'b.ipynb', 'remote': 'c.ipynb'}), kind='merge', files=('a.ipynb', 'b.ipynb', 'c.ipynb'))
     add('merge a,b,d', 'POST', '/api/merge', J({'base': 'a.ipynb', 'local': 'b.ipynb', 'remote': 'd.ipynb'}), kind='merge', files=('a.ipynb', 'b.ipynb', 'd.ipynb'))
     add('store b', 'POST', '/api/store', J({'merged': nbs['b.ipynb']}), kind='store', merged=nbs['b.ipynb'])
@@ -293,7 +307,11 @@ def reference_main(argv):
     root = argv[0]
     out = {}
     for triple in json.loads(argv[1]):
-        nbs = [nbformat.read(os.path.join(root, 'work', f), as_version=4) for f in triple]
+        try:
+            nbs = [nbformat.read(os.path.join(root, 'work', f), as_version=4) for f in triple]
+        except Exception:
+            out['|'.join(triple)] = 'unreadable'
+            continue
         args = _build_arg_parser().parse_args(['', '', ''])
         args.merge_strategy = 'mergetool'
         decs = decide_notebook_merge(nbs[0], nbs[1], nbs[2], args=args)
@@ -315,6 +333,7 @@ def library_reference(root, triples):
 
 _G = {}
 _first_cache = {}
+_libref_cache = {}
 
 
 def read_nb_plain(path):
@@ -324,6 +343,8 @@ def read_nb_plain(path):
 
 def first_response(mode, root_src, req):
     """Response of a freshly started server to `req` as its first request, on a copy of the tree at root_src."""
+    if req['kind'] == 'fs':
+        return {'status': 'fs-event', 'body': None}
     key = (mode, tree_hash(snapshot(root_src)), req['name'])
     if key in _first_cache:
         return _first_cache[key]
@@ -372,7 +393,7 @@ def run_history(ctx, mode, history):
             case = {'mode': mode, 'history': [r['name'] for r in history[:i + 1]], 'response_status': resp['status']}
             judge(ctx, mode, req, resp, before, after, root, srv, closed, case)
             if closed:
-                if resp['status'] != 'unreachable':
+                if resp['status'] not in ('unreachable', 'fs-event'):
                     ctx.violation('%s|CLOSE|still-serving-after-close' % PROP, 'server answered after an honoured close request', case)
             elif want_first is not None:
                 if canon(resp) != canon(want_first):
@@ -386,6 +407,21 @@ def run_history(ctx, mode, history):
         shutil.rmtree(tmp, ignore_errors=True)
 
 
+def files_readable(root, m, req):
+    if req['path'].endswith('/api/diff') and is_difftool(m):
+        files = [m['tool'][0], m['tool'][2]]
+    elif req['path'].endswith('/api/merge') and is_mergetool(m):
+        files = list(m['tool'])
+    else:
+        files = list(req.get('files') or ())
+    for f in files:
+        try:
+            read_nb_plain(os.path.join(root, 'work', f))
+        except Exception:
+            return False
+    return True
+
+
 def is_difftool(m):
     return m['entry'] == 'nbdifftool'
 
@@ -397,6 +433,8 @@ def is_mergetool(m):
 def judge(ctx, mode, req, resp, before, after, root, srv, closed, case):
     m = MODES[mode]
     kind = req['kind']
+    if kind == 'fs':
+        return
     st = resp['status']
     changed = sorted(k for k in set(before) | set(after) if before.get(k) != after.get(k))
     outrel = os.path.join('work', m['output']) if m['output'] else None
@@ -441,7 +479,7 @@ def judge(ctx, mode, req, resp, before, after, root, srv, closed, case):
             remote_file = m['tool'][2]
         else:
             remote_file = json.loads(req['body'])['remote'] if kind in ('diff', 'read-only') else None
-        if remote_file is not None:
+        if remote_file is not None and files_readable(root, m, req):
             try:
                 want = read_nb_plain(os.path.join(root, 'work', remote_file))
                 got = ref_patch(body['base'], body['diff'])
@@ -458,10 +496,12 @@ def judge(ctx, mode, req, resp, before, after, root, srv, closed, case):
             triple = req['files']
         else:
             triple = None
-        if triple is not None:
-            want = _G['libref'].get('|'.join(triple))
-            if want is None:
-                raise HarnessError('no library reference for %r' % (triple,))
+        if triple is not None and files_readable(root, m, req):
+            th = tree_hash({k: v for k, v in before.items() if k.startswith('work' + os.sep) and os.path.basename(k) in triple})
+            key = ('|'.join(triple), th)
+            if key not in _libref_cache:
+                _libref_cache[key] = library_reference(root, [list(triple)]).get('|'.join(triple), 'unreadable')
+            want = _libref_cache[key]
             if canon(resp['body'].get('merge_decisions')) != canon(want):
                 ctx.violation('%s|MERGE|decisions-differ' % PROP, '/api/merge decisions differ from decide_notebook_merge of the same files', case)
             try:
@@ -470,7 +510,11 @@ def judge(ctx, mode, req, resp, before, after, root, srv, closed, case):
             except Exception:
                 pass
             ctx.count('merge_responses_verified')
-    if kind in ('diff', 'merge') and st != 200:
+    if kind in ('diff', 'merge') and not files_readable(root, m, req):
+        # another program has turned an input into a non-notebook: the request is no longer a valid one
+        if not (isinstance(st, int) and st >= 400):
+            ctx.violation('%s|ERROR-STATUS|unreadable-input|status-%s' % (PROP, st), 'request naming an unreadable notebook answered %s' % st, case)
+    elif kind in ('diff', 'merge') and st != 200:
         ctx.violation('%s|VALID-REQUEST-REFUSED|%s|status-%s' % (PROP, kind, st), 'valid %s request answered %s' % (kind, st), case)
     # (iv) close
     if kind == 'close':
@@ -502,9 +546,14 @@ def _shard(sh, ctx):
         if depth >= 2:
             for j in range(len(reqs)):
                 run_history(ctx, mode, [reqs[i], reqs[j]])
-                if depth >= 3 and reqs[i]['kind'] in ('store', 'bad', 'close', 'diff') and reqs[j]['kind'] in ('store', 'bad', 'merge', 'diff', 'close'):
+                if depth >= 3 and reqs[i]['kind'] in ('store', 'bad', 'close', 'diff', 'merge', 'fs') and reqs[j]['kind'] in ('store', 'bad', 'merge', 'diff', 'close', 'fs'):
                     for k in range(len(reqs)):
                         if reqs[k]['kind'] in ('diff', 'merge', 'store', 'bad', 'close'):
+                            run_history(ctx, mode, [reqs[i], reqs[j], reqs[k]])
+                elif depth == 2 and reqs[i]['kind'] in ('diff', 'merge') and reqs[j]['kind'] in ('store', 'fs'):
+                    # quick tier: read - change - read again (the shape that exposes anything remembered between requests)
+                    for k in range(len(reqs)):
+                        if reqs[k]['kind'] in ('diff', 'merge'):
                             run_history(ctx, mode, [reqs[i], reqs[j], reqs[k]])
         ctx.sample({'mode': mode, 'first_request': reqs[i]['name'], 'depth': depth}, rank=(mode, i))
 
